@@ -118,6 +118,12 @@ func genRequests(rng *rand.Rand, prules []ParsedRule, perRule int, hostile bool)
 				}
 				// wrong HTTP verb
 				reqs = append(reqs, Req{pick(rng, allVerbs), in.Path(), "other-verb"})
+				// method tokens are case-sensitive: the rule's verb in lower
+				// or mixed case is another verb
+				if v := reqVerbFor(rng, pr.Verb); pr.Verb != "*" {
+					reqs = append(reqs, Req{strings.ToLower(v), in.Path(), "verb-other-case"})
+					reqs = append(reqs, Req{v[:1] + strings.ToLower(v[1:]), in.Path(), "verb-other-case"})
+				}
 				bad := Instantiate(rng, pr.T, reqDesc(), true)
 				reqs = append(reqs, Req{reqVerbFor(rng, pr.Verb), bad.Path(), "bad-typed"})
 			}
